@@ -6,8 +6,46 @@ RULE = ("every sequence of <= MaxN statements over all key paths of length <= Ma
         "verdict and merged tree validated by TLC. distinct_nontrivial = distinct texts")
 
 
+REFINE_CFG = """SPECIFICATION Spec
+CONSTANTS
+  Stmts <- MCStmts
+  MaxN = %d
+  MaxPath = 3
+  EMIT = FALSE
+  RICH = %d
+  UNIFORM = TRUE
+  NARROW = %d
+  INLINE = FALSE
+INVARIANT Refines
+CHECK_DEADLOCK FALSE
+"""
+
+
 def run(ctx):
+    # the implementation-shaped model of parser/state.rs refines the contract (specification-level check)
+    for (n, rich, narrow, tag) in ([(3, 0, 0, "wide"), (5, 0, 1, "narrow"), (5, 0, 2, "narrow2")] if ctx.quick else
+                                   [(3, 1, 0, "wide"), (6, 0, 1, "narrow"), (6, 0, 2, "narrow2")]):
+        r = ctx.tlc("MCParseState", REFINE_CFG % (n, rich, narrow), tag="refine-" + tag, workers=8, timeout=7200)
+        ctx.extra.setdefault("refinement_ParseStateImpl_to_TomlDoc", []).append({"scope": tag, "MaxN": n, "distinct_states": r.distinct})
     parsecheck.run_parse(ctx, {"doc"}, {"verdict", "tree", "panic"})
+    # model drift: flags predicted by ParseStateImpl vs Table::is_implicit / is_dotted / position (reported, never a violation)
+    import os
+    from . import core
+    h = ctx.build(features=("preserve_order",))
+    drift = 0
+    compared = 0
+    for f in sorted(os.listdir(ctx.work)):
+        if f.startswith("doc-narrow") and f.endswith(".ndjson") or f.startswith("doc-n2p3r") and f.endswith(".ndjson"):
+            evp = ctx.path(f[:-7] + ".flags.ev")
+            ctx.harness(h, ["flags-events", "--in", ctx.path(f), "--out", evp])
+            before = ctx.validated
+            mism, _, n = ctx.validate(evp)
+            ctx.validated = before          # drift events are not property evidence
+            compared += n
+            drift += len(mism)
+            os.remove(evp)
+    ctx.extra["model_drift"] = {"documents_compared": compared, "flag_or_verdict_mismatches": drift}
+    core.log("model drift (ParseStateImpl vs parser flags): %d mismatches on %d documents" % (drift, compared))
     return ctx.finish("model_checking", RULE, exhaustive=True)
 
 
